@@ -660,7 +660,7 @@ def c2s(ctx, nhist):
     big = big_histories(ctx)
     judge(ctx, big, 8)
     ctx.sample({'recorded_big_history': [{kk: (v if kk != 'mask' else '<%i flags>' % len(v)) for kk, v in e.items() if kk != 'post'} for e in big[-6]['events'][:5]],
-                'rows_of_r1_after_it': big[-6]['events'][4]['post']['r1']['table']['len']})
+                'rows_of_r1_after_it': ((((big[-6]['events'][4].get('post') or {}).get('r1') or {}).get('table') or {}).get('len') if len(big[-6]['events']) > 4 else None)})
 
 
 def judge(ctx, obs, per_run):
